@@ -1015,3 +1015,200 @@ package edwards25519
 //@   ensures [receiver] result == v
 //@   ensures [valid] gvalid(v)
 //@   ensures [value] pt(v) == (gsum j in 0..len(points): smul(nval(scalars[j]), pt(points[j])))
+
+// ================================================================ LAW bridges: what the tier-G views mean, proved at tier F
+//
+// A curve point is an affine pair (a, b) with b^2 - a^2 = 1 + d a^2 b^2; the group operation is the affine Edwards law
+//   (a1,b1) + (a2,b2) = ((a1 b2 + a2 b1)/(1 + d m), (b1 b2 + a1 a2)/(1 - d m)),  m = a1 a2 b1 b2,
+// stated division-free below.  `pt(x) = (a, b)` for the five representations:
+//@ define aff(a, b) = cong(lv(b)*lv(b) - lv(a)*lv(a), 1 + lv(d)*lv(a)*lv(a)*lv(b)*lv(b), P)
+//@ define repP3(p, a, b) = !cong(lv(p.z), 0, P) && cong(lv(p.x), lv(a)*lv(p.z), P) && cong(lv(p.y), lv(b)*lv(p.z), P) && cong(lv(p.t), lv(a)*lv(b)*lv(p.z), P)
+//@ define repP2(p, a, b) = !cong(lv(p.Z), 0, P) && cong(lv(p.X), lv(a)*lv(p.Z), P) && cong(lv(p.Y), lv(b)*lv(p.Z), P)
+//@ define repP1(p, a, b) = !cong(lv(p.Z), 0, P) && !cong(lv(p.T), 0, P) && cong(lv(p.X), lv(a)*lv(p.Z), P) && cong(lv(p.Y), lv(b)*lv(p.T), P)
+//@ define repC(q, a, b) = !cong(lv(q.Z), 0, P) && cong(lv(q.YplusX), (lv(b)+lv(a))*lv(q.Z), P) && cong(lv(q.YminusX), (lv(b)-lv(a))*lv(q.Z), P) && cong(lv(q.T2d), 2*lv(d)*lv(a)*lv(b)*lv(q.Z), P)
+//@ define repA(q, a, b) = cong(lv(q.YplusX), lv(b)+lv(a), P) && cong(lv(q.YminusX), lv(b)-lv(a), P) && cong(lv(q.T2d), 2*lv(d)*lv(a)*lv(b), P)
+// M4 in affine form: the denominators of the law do not vanish for points on the curve
+//@ define m4aff(a1, b1, a2, b2) = (aff(a1, b1) && aff(a2, b2)) ==> (!cong(1 + lv(d)*lv(a1)*lv(a2)*lv(b1)*lv(b2), 0, P) && !cong(1 - lv(d)*lv(a1)*lv(a2)*lv(b1)*lv(b2), 0, P))
+// (X:Z),(Y:T) represents the sum of (a1,b1) and (sx*a2, b2)   (sx = 1: addition, sx = -1: subtraction)
+//@ define sumP1(v, a1, b1, a2, b2, sx) = !cong(lv(v.Z), 0, P) && !cong(lv(v.T), 0, P) && cong(lv(v.X) * (1 + sx*lv(d)*lv(a1)*lv(a2)*lv(b1)*lv(b2)), lv(v.Z) * (lv(a1)*lv(b2) + sx*lv(a2)*lv(b1)), P) && cong(lv(v.Y) * (1 - sx*lv(d)*lv(a1)*lv(a2)*lv(b1)*lv(b2)), lv(v.T) * (lv(b1)*lv(b2) + sx*lv(a1)*lv(a2)), P)
+
+//@ func (*projP1xP1).Add(v, p, q) as law
+//@   mode ring
+//@   opt entrydefs
+//@   ghost a1, b1, a2, b2
+//@   requires [inv] elems(p) && inv(q.YplusX) && inv(q.YminusX) && inv(q.Z) && inv(q.T2d)
+//@   requires [rep] repP3(p, a1, b1) && repC(q, a2, b2)
+//@   requires [curve] aff(a1, b1) && aff(a2, b2)
+//@   assume [M4] m4aff(a1, b1, a2, b2)
+//@   assigns *v
+//@   ensures [sum] sumP1(v, a1, b1, a2, b2, 1)
+
+//@ func (*projP1xP1).Sub(v, p, q) as law
+//@   mode ring
+//@   opt entrydefs
+//@   ghost a1, b1, a2, b2
+//@   requires [inv] elems(p) && inv(q.YplusX) && inv(q.YminusX) && inv(q.Z) && inv(q.T2d)
+//@   requires [rep] repP3(p, a1, b1) && repC(q, a2, b2)
+//@   requires [curve] aff(a1, b1) && aff(a2, b2)
+//@   assume [M4] m4aff(a1, b1, a2, b2)
+//@   assigns *v
+//@   ensures [sum] sumP1(v, a1, b1, a2, b2, 0 - 1)
+
+//@ func (*projP1xP1).AddAffine(v, p, q) as law
+//@   mode ring
+//@   opt entrydefs
+//@   ghost a1, b1, a2, b2
+//@   requires [inv] elems(p) && inv(q.YplusX) && inv(q.YminusX) && inv(q.T2d)
+//@   requires [rep] repP3(p, a1, b1) && repA(q, a2, b2)
+//@   requires [curve] aff(a1, b1) && aff(a2, b2)
+//@   assume [M4] m4aff(a1, b1, a2, b2)
+//@   assigns *v
+//@   ensures [sum] sumP1(v, a1, b1, a2, b2, 1)
+
+//@ func (*projP1xP1).SubAffine(v, p, q) as law
+//@   mode ring
+//@   opt entrydefs
+//@   ghost a1, b1, a2, b2
+//@   requires [inv] elems(p) && inv(q.YplusX) && inv(q.YminusX) && inv(q.T2d)
+//@   requires [rep] repP3(p, a1, b1) && repA(q, a2, b2)
+//@   requires [curve] aff(a1, b1) && aff(a2, b2)
+//@   assume [M4] m4aff(a1, b1, a2, b2)
+//@   assigns *v
+//@   ensures [sum] sumP1(v, a1, b1, a2, b2, 0 - 1)
+
+//@ func (*projP1xP1).Double(v, p) as law
+//@   mode ring
+//@   opt entrydefs
+//@   ghost a1, b1
+//@   requires [inv] inv(p.X) && inv(p.Y) && inv(p.Z)
+//@   requires [rep] repP2(p, a1, b1)
+//@   requires [curve] aff(a1, b1)
+//@   assume [M4] m4aff(a1, b1, a1, b1)
+//@   assigns *v
+//@   ensures [sum] sumP1(v, a1, b1, a1, b1, 1)
+
+//@ func (*projP2).FromP1xP1(v, p) as law
+//@   mode ring
+//@   opt entrydefs
+//@   ghost a1, b1
+//@   requires [inv] inv(p.X) && inv(p.Y) && inv(p.Z) && inv(p.T)
+//@   requires [rep] repP1(p, a1, b1)
+//@   assigns *v
+//@   ensures [same] repP2(v, a1, b1)
+
+//@ func (*projP2).FromP3(v, p) as law
+//@   mode ring
+//@   opt entrydefs
+//@   ghost a1, b1
+//@   requires [rep] repP3(p, a1, b1)
+//@   assigns *v
+//@   ensures [same] repP2(v, a1, b1)
+
+//@ func (*Point).fromP1xP1(v, p) as law
+//@   mode ring
+//@   opt entrydefs
+//@   ghost a1, b1
+//@   requires [inv] inv(p.X) && inv(p.Y) && inv(p.Z) && inv(p.T)
+//@   requires [rep] repP1(p, a1, b1)
+//@   assigns *v
+//@   ensures [same] repP3(v, a1, b1)
+
+//@ func (*Point).fromP2(v, p) as law
+//@   mode ring
+//@   opt entrydefs
+//@   ghost a1, b1
+//@   requires [inv] inv(p.X) && inv(p.Y) && inv(p.Z)
+//@   requires [rep] repP2(p, a1, b1)
+//@   assigns *v
+//@   ensures [same] repP3(v, a1, b1)
+
+//@ func (*projCached).FromP3(v, p) as law
+//@   mode ring
+//@   opt entrydefs
+//@   ghost a1, b1
+//@   requires [inv] elems(p)
+//@   requires [rep] repP3(p, a1, b1)
+//@   assigns *v
+//@   ensures [same] repC(v, a1, b1)
+
+//@ func (*affineCached).FromP3(v, p) as law
+//@   mode ring
+//@   opt entrydefs
+//@   ghost a1, b1
+//@   requires [inv] elems(p)
+//@   requires [rep] repP3(p, a1, b1)
+//@   assigns *v
+//@   ensures [same] repA(v, a1, b1)
+
+// conditional negation: (a, b) -> (-a, b)
+//@ func (*projCached).CondNeg(v, cond) as law
+//@   mode ring
+//@   ghost a1, b1, na
+//@   requires [cond] cond == 0 || cond == 1
+//@   requires [inv] inv(v.YplusX) && inv(v.YminusX) && inv(v.Z) && inv(v.T2d)
+//@   requires [rep] repC(v, a1, b1) && cong(lv(na), 0 - lv(a1), P)
+//@   entrysplit cond in {0, 1}
+//@   assigns *v
+//@   ensures [neg] cond == 1 ==> repC(v, na, b1)
+//@   ensures [same] cond == 0 ==> repC(v, a1, b1)
+
+//@ func (*affineCached).CondNeg(v, cond) as law
+//@   mode ring
+//@   ghost a1, b1, na
+//@   requires [cond] cond == 0 || cond == 1
+//@   requires [inv] inv(v.YplusX) && inv(v.YminusX) && inv(v.T2d)
+//@   requires [rep] repA(v, a1, b1) && cong(lv(na), 0 - lv(a1), P)
+//@   entrysplit cond in {0, 1}
+//@   assigns *v
+//@   ensures [neg] cond == 1 ==> repA(v, na, b1)
+//@   ensures [same] cond == 0 ==> repA(v, a1, b1)
+
+// the exported operations as group operations, from the bridges above
+//@ func (*Point).Add(v, p, q) as group
+//@   mode group
+//@   requires [wf] wf(p) && wf(q)
+//@   panics !init(p) || !init(q)
+//@   assigns *v
+//@   ensures [receiver] result == v
+//@   ensures [value] pt(v) == gadd(pt(p), pt(q))
+//@   ensures [valid] gvalid(v)
+
+//@ func (*Point).Subtract(v, p, q) as group
+//@   mode group
+//@   requires [wf] wf(p) && wf(q)
+//@   panics !init(p) || !init(q)
+//@   assigns *v
+//@   ensures [receiver] result == v
+//@   ensures [value] pt(v) == gadd(pt(p), gneg(pt(q)))
+//@   ensures [valid] gvalid(v)
+
+//@ func (*Point).Negate(v, p) as law
+//@   mode ring
+//@   ghost a1, b1, na
+//@   requires [inv] elems(p)
+//@   requires [rep] repP3(p, a1, b1) && cong(lv(na), 0 - lv(a1), P)
+//@   requires [init] init(p)
+//@   assigns *v
+//@   ensures [neg] repP3(v, na, b1)
+
+// the neutral element is the affine point (0, 1)
+//@ func (*projP2).Zero(v) as law
+//@   mode ring
+//@   ghost z0, o1
+//@   requires [consts] cong(lv(z0), 0, P) && cong(lv(o1), 1, P)
+//@   assigns *v
+//@   ensures [id] repP2(v, z0, o1)
+
+//@ func (*projCached).Zero(v) as law
+//@   mode ring
+//@   ghost z0, o1
+//@   requires [consts] cong(lv(z0), 0, P) && cong(lv(o1), 1, P)
+//@   assigns *v
+//@   ensures [id] repC(v, z0, o1)
+
+//@ func (*affineCached).Zero(v) as law
+//@   mode ring
+//@   ghost z0, o1
+//@   requires [consts] cong(lv(z0), 0, P) && cong(lv(o1), 1, P)
+//@   assigns *v
+//@   ensures [id] repA(v, z0, o1)
